@@ -29,8 +29,12 @@ def templates(tier, seed):
     tds = []
     for L in (0, 1, 2, 3):
         for form in ("while", "until"):
-            for where in ("top", "in-g"):
+            for where in ("top", "in-g", "in-if", "in-loop", "in-if-g", "in-for", "then-config"):
                 for body in ("rect", "rect+text"):
+                    if where not in ("top", "in-g") and body != "rect":
+                        continue
+                    if where in ("in-loop", "in-for") and L == 0:
+                        continue    # (the one-pass wrapper is itself over a limit of 0)
                     tds.append(dict(fam="loop-limit", L=L, form=form, where=where, body=body))
         for n in range(0, L + 3):
             tds.append(dict(fam="count-limit", L=L, n=n))
@@ -51,6 +55,10 @@ def templates(tier, seed):
         for delta in (-1, 0, 1):
             for ch in ("x", "é", "→", "𝄞"):
                 tds.append(dict(fam="var-limit", lim=lim, delta=delta, ch=ch))
+    for form in ("same-value-after-lower-limit", "copy-of-group-attr", "copy-of-for-item", "copy-of-reuse-attr", "same-value-within-limit"):
+        tds.append(dict(fam="var-limit-copy", form=form))
+    for form in ("config-in-body-lowers", "config-in-body-if", "config-in-body-raises", "config-in-nested"):
+        tds.append(dict(fam="loop-limit-dynamic", form=form))
     for form in ("reassign-later", "reassign-later-in-g", "limit-raised-later", "self-growth", "via-g-attr"):
         tds.append(dict(fam="var-limit-final", form=form))
     for lim in (5, 24, 30):
@@ -75,9 +83,22 @@ def build(td, wrong=False):
         body = '<rect xy="{{$i * 3}} 0" wh="2"/>' + ('<text xy="{{$i * 3}} 5">t</text>' if td["body"] == "rect+text" else "")
         cond = 'while="lt($i, [[0]])"' if form == "while" else 'until="ge($i, [[0]])"'
         loop = f'<loop {cond}>{body}<var i="{{{{$i + 1}}}}"/></loop>'
+        tail = ""
+        mult = 1
         if td["where"] == "in-g":
             loop = f"<g>{loop}</g>"
-        doc = f'<svg><config loop-limit="{L}"/><var i="0"/>{loop}</svg>'
+        elif td["where"] == "in-if":
+            loop = f'<if test="1">{loop}</if>'
+        elif td["where"] == "in-if-g":
+            loop = f'<g><if test="1">{loop}</if></g>'
+        elif td["where"] == "in-loop":
+            loop = f'<loop count="1">{loop}</loop>'
+        elif td["where"] == "in-for":
+            loop = f'<for var="q" data="7">{loop}</for>'
+        elif td["where"] == "then-config":
+            # a limit raised later in the document does not reach back
+            tail = '<config loop-limit="100"/>'
+        doc = f'<svg><config loop-limit="{L}"/><var i="0"/>{loop}{tail}</svg>'
         # trips as a function of the symbolic integer bound N = v0
         trips = ite(le("v0", "0.0"), "0.0", "v0") if form == "while" else ite(le("v0", "1.0"), "1.0", "v0")
         Ls = num(L + (1 if wrong else 0))
@@ -183,6 +204,32 @@ def build(td, wrong=False):
                 good = r.status in ("ok", "err") and (r.status == "err" or len(ch.encode()) * n <= lim or n <= lim)
             return [Obl(f"var-length-{n}-limit-{lim}", PASS if good else FAIL, ground=True, note=r.status + " " + r.docs[0]["msg"][:100])]
         return Template(f"var-limit/{lim}/{delta}/{ch}", doc, [(1, -8, 8, 0)], check, family="var-limit", role="C17/var-limit", cap=2)
+    if fam == "var-limit-copy":
+        # the limit applies to every value a <var> stores, wherever the value comes from and whether or not it changes anything
+        form = td["form"]
+        doc, want = {
+            "same-value-after-lower-limit": ('<svg><var s="0123456789"/><config var-limit="5"/><var s="$s"/><rect xy="[[0]] 0" wh="1"/></svg>', "err"),
+            "copy-of-group-attr": ('<svg><config var-limit="5"/><g s="0123456789"><var s="$s"/><rect xy="[[0]] 0" wh="1"/></g></svg>', "err"),
+            "copy-of-for-item": ('<svg><config var-limit="5"/><for var="s" data="\'0123456789\'"><var s="$s"/><rect xy="[[0]] 0" wh="1"/></for></svg>', "err"),
+            "copy-of-reuse-attr": ('<svg><config var-limit="5"/><specs><g id="t"><var s="$s"/><rect wh="1"/></g></specs><reuse href="#t" s="0123456789" x="[[0]]"/></svg>', "err"),
+            "same-value-within-limit": ('<svg><var s="01234"/><config var-limit="5"/><var s="$s"/><rect xy="[[0]] 0" wh="1"/></svg>', "ok")}[form]
+
+        def check(r):
+            return [Obl(f"var-limit-applies-to-copies/{form}", PASS if r.status == want else FAIL, ground=True, note=r.status + " " + r.docs[0]["msg"][:100])]
+        return Template(f"var-limit-copy/{form}", doc, [(1, -8, 8, 0)], check, family="var-limit", role="C17/var-limit", cap=2)
+    if fam == "loop-limit-dynamic":
+        # the limit in force is the configured one at the time of each check: a <config> met inside a running loop counts
+        form = td["form"]
+        doc, want, nrect = {
+            "config-in-body-lowers": ('<svg><loop count="6" loop-var="i"><config loop-limit="3"/><rect xy="{{$i * 3}} [[0]]" wh="2"/></loop></svg>', "err", None),
+            "config-in-body-if": ('<svg><loop count="6" loop-var="i"><if test="eq($i, 1)"><config loop-limit="2"/></if><rect xy="{{$i * 3}} [[0]]" wh="2"/></loop></svg>', "err", None),
+            "config-in-body-raises": ('<svg><config loop-limit="2"/><loop count="4" loop-var="i"><config loop-limit="10"/><rect xy="{{$i * 3}} [[0]]" wh="2"/></loop></svg>', "ok", 4),
+            "config-in-nested": ('<svg><loop count="2" loop-var="j"><config loop-limit="3"/><loop count="5" loop-var="i"><rect xy="{{$i * 3}} [[0]]" wh="2"/></loop></loop></svg>', "err", None)}[form]
+
+        def check(r):
+            good = r.status == want and (nrect is None or count_tag(r.output, "rect") == nrect)
+            return [Obl(f"loop-limit-as-configured-now/{form}", PASS if good else FAIL, ground=True, note=r.status + " " + r.docs[0]["msg"][:100])]
+        return Template(f"loop-limit-dynamic/{form}", doc, [(1, -8, 8, 0)], check, family="loop-limit", role="C17/loop-limit/dynamic", cap=2)
     if fam == "var-limit-final":
         # exceeding the limit is final: nothing written later in the document can make the same <var> acceptable on a retry
         doc = {"reassign-later": '<svg><config var-limit="10"/><var a="0123456789"/><var b="$a$a"/><var a="x"/><rect xy="[[0]] 0" wh="1"/></svg>',
